@@ -674,7 +674,9 @@ func (s *Session) readCompressed(rw io.ReadWriter, p *Proposal) (err error) {
 				}
 			}
 		case _CHREOT:
-			c, _ = s.rd.ReadByte()
+			if c, err = s.rd.ReadByte(); err != nil {
+				return err
+			}
 			ourChecksum = (ourChecksum + int(c)) % 256
 			if ourChecksum != 0 {
 				return errors.New(`Bad checksum`)
